@@ -39,6 +39,18 @@ type Shape struct {
 	MaxItems     int
 	// Oversize: if >0, one item gets a body/attribute of this many bytes
 	Oversize int
+	// NonEmpty makes every container hold at least one element (so the payload has at least one item)
+	NonEmpty bool
+}
+
+func (sh Shape) count(tp *simkit.Tape, max int) int {
+	if sh.NonEmpty {
+		if max < 1 {
+			max = 1
+		}
+		return 1 + tp.Draw(max)
+	}
+	return tp.Draw(max + 1)
 }
 
 var DefaultShape = Shape{MaxResources: 3, MaxScopes: 3, MaxMetrics: 3, MaxItems: 4}
@@ -107,18 +119,18 @@ func fillScope(tp *simkit.Tape, s pcommon.InstrumentationScope) {
 
 func Logs(tp *simkit.Tape, ids *IDs, sh Shape) plog.Logs {
 	ld := plog.NewLogs()
-	nr := tp.Draw(sh.MaxResources + 1)
+	nr := sh.count(tp, sh.MaxResources)
 	big := sh.Oversize
 	for i := 0; i < nr; i++ {
 		rl := ld.ResourceLogs().AppendEmpty()
 		fillResource(tp, rl.Resource())
 		rl.SetSchemaUrl(schemaURL(tp, "res"))
-		ns := tp.Draw(sh.MaxScopes + 1)
+		ns := sh.count(tp, sh.MaxScopes)
 		for j := 0; j < ns; j++ {
 			sl := rl.ScopeLogs().AppendEmpty()
 			fillScope(tp, sl.Scope())
 			sl.SetSchemaUrl(schemaURL(tp, "scope"))
-			ni := tp.Draw(sh.MaxItems + 1)
+			ni := sh.count(tp, sh.MaxItems)
 			for k := 0; k < ni; k++ {
 				lr := sl.LogRecords().AppendEmpty()
 				lr.Attributes().PutStr(IDKey, ids.Next())
@@ -182,18 +194,18 @@ func short(s string) string {
 
 func Traces(tp *simkit.Tape, ids *IDs, sh Shape) ptrace.Traces {
 	td := ptrace.NewTraces()
-	nr := tp.Draw(sh.MaxResources + 1)
+	nr := sh.count(tp, sh.MaxResources)
 	big := sh.Oversize
 	for i := 0; i < nr; i++ {
 		rs := td.ResourceSpans().AppendEmpty()
 		fillResource(tp, rs.Resource())
 		rs.SetSchemaUrl(schemaURL(tp, "res"))
-		ns := tp.Draw(sh.MaxScopes + 1)
+		ns := sh.count(tp, sh.MaxScopes)
 		for j := 0; j < ns; j++ {
 			ss := rs.ScopeSpans().AppendEmpty()
 			fillScope(tp, ss.Scope())
 			ss.SetSchemaUrl(schemaURL(tp, "scope"))
-			ni := tp.Draw(sh.MaxItems + 1)
+			ni := sh.count(tp, sh.MaxItems)
 			for k := 0; k < ni; k++ {
 				sp := ss.Spans().AppendEmpty()
 				sp.Attributes().PutStr(IDKey, ids.Next())
@@ -246,17 +258,17 @@ func SpanItems(td ptrace.Traces) map[string]string {
 
 func Metrics(tp *simkit.Tape, ids *IDs, sh Shape) pmetric.Metrics {
 	md := pmetric.NewMetrics()
-	nr := tp.Draw(sh.MaxResources + 1)
+	nr := sh.count(tp, sh.MaxResources)
 	for i := 0; i < nr; i++ {
 		rm := md.ResourceMetrics().AppendEmpty()
 		fillResource(tp, rm.Resource())
 		rm.SetSchemaUrl(schemaURL(tp, "res"))
-		ns := tp.Draw(sh.MaxScopes + 1)
+		ns := sh.count(tp, sh.MaxScopes)
 		for j := 0; j < ns; j++ {
 			sm := rm.ScopeMetrics().AppendEmpty()
 			fillScope(tp, sm.Scope())
 			sm.SetSchemaUrl(schemaURL(tp, "scope"))
-			nm := tp.Draw(sh.MaxMetrics + 1)
+			nm := sh.count(tp, sh.MaxMetrics)
 			for k := 0; k < nm; k++ {
 				m := sm.Metrics().AppendEmpty()
 				m.SetName([]string{"m.a", "m.b", "requests"}[tp.Draw(3)])
@@ -265,7 +277,7 @@ func Metrics(tp *simkit.Tape, ids *IDs, sh Shape) pmetric.Metrics {
 				if tp.Draw(3) == 0 {
 					m.Metadata().PutStr("origin", "sim")
 				}
-				np := tp.Draw(sh.MaxItems + 1)
+				np := sh.count(tp, sh.MaxItems)
 				switch tp.Draw(5) {
 				case 0:
 					g := m.SetEmptyGauge()
